@@ -490,6 +490,9 @@ def subgraph(types: Iterable[Type], fun: Callable[..., Iterable[Var]]) -> Graph:
     if not callable(fun):
         raise TypeError("Subgraph callback must be callable.")
     outs = fun(*ins)
+    if isinstance(outs, Iterable):
+        # A one-shot iterable (generator, map) must not be used up by the check below.
+        outs = tuple(outs)
     if not (isinstance(outs, Iterable) and all(isinstance(out, Var) for out in outs)):
         raise TypeError("Subgraph result must be an Iterable of Var.")
     return enum_results(*outs).with_arguments(*ins)._with_constructor(fun)
